@@ -45,6 +45,13 @@ def grid(seed):
         yield {'engine': 'fork', 'isolate': True, 'position': pos, 'order': 'child_first', 'thread': thread,
                'child_sessions': 1, 'grandchild': True, 'second_db': second, 'seed': derive(seed, 'c36', i), 'timeout': 60}
         i += 1
+    # the child calls db.disconnect(): before its first session, or between two of its sessions
+    for pos, when, second, thread in itertools.product(('pooled_idle', 'after_disconnect', 'no_connection'), ('first', 'after'),
+                                                       (False, True), (False, True)):
+        yield {'engine': 'fork', 'isolate': True, 'position': pos, 'order': 'child_first', 'thread': thread,
+               'child_sessions': 2, 'child_disconnect': when, 'second_db': second, 'seed': derive(seed, 'c36', i),
+               'timeout': 60}
+        i += 1
 
 
 def main(tier, seed):
